@@ -51,6 +51,7 @@ PLACEMENTS = ["dense_leaf", "dense_derived", "mf_leaf", "mf_leaf_mv", "mf_derive
               "matmul", "scale", "adj", "mf_unused", "jac_mod", "jac_fn"]
 JACS = ("jac_mod", "jac_fn")
 HERM_PL = ("dense_derived", "mf_derived")
+LEAF_PL = ("dense_leaf", "mf_leaf", "mf_leaf_mv", "mf_unused")      # the operator holds the leaf tensor itself
 TOL = 1e-11
 
 DEFAULTS = {"plane": "method", "place": "dense_leaf", "mplace": "dense", "fwd": "custom_exactsolve", "bck": "exactsolve",
@@ -470,14 +471,16 @@ def run_case(cfg):
 
     torch.manual_seed(978)
     with sc.quiet_stderr():
-        o1 = call(torch.autograd.grad, loss, req, create_graph=create, allow_unused=True)
+        o1 = call(torch.autograd.grad, loss, req, create_graph=create, retain_graph=(create or cfg["reuse"]),
+                  allow_unused=True)
     if o1.exc is not None:
         return {"viol": [V("backward-" + exc_class(o1.exc), {"exception": o1.exc_sig}, stage="first")],
                 "obs": {"bck": exc_class(o1.exc)}, "status": "violation"}
     if o1.warned:
         return {"viol": [], "obs": {"bck": "warned"}, "status": "bck-warned"}
     g1 = list(o1.value)
-    g1ref = list(torch.autograd.grad(lref, req, create_graph=create, allow_unused=True))
+    g1ref = list(torch.autograd.grad(lref, req, create_graph=create, retain_graph=(create or cfg["reuse"]),
+                                     allow_unused=True))
     scale1 = max([1.0] + [r.detach().abs().max().item() for r in g1ref if r is not None and r.numel()])
     worst1 = 0.0
     for nm, lf, a, r in zip(req_names, req, g1, g1ref):
@@ -525,8 +528,12 @@ def run_case(cfg):
                                        "got_none": a is None, "why": why}, leaf=nm, stage="second"))
                 obs["r2"] = _bucket(worst2)
     if cfg["reuse"] and not viol:
-        # the same operator objects are used for a second solve after a backward pass went through them:
-        # the temporary parameter substitution of the first backward must have been undone
+        # training-loop usage: the leaf held by the operator is updated in place (as an optimizer does) and the
+        # same operator objects are used for a second solve + backward.  The temporary parameter substitution of
+        # the first backward must have been undone, otherwise the operator computes with a stale copy.
+        if cfg["place"] in LEAF_PL:
+            with torch.no_grad():
+                leaves["P"].mul_(1.05)
         torch.manual_seed(980)
         with sc.quiet_stderr():
             of2 = call(xitorch.linalg.solve, A, pb["B"], pb["E"], M, bck_options=bck_opts, **fwd_opts)
@@ -535,6 +542,11 @@ def run_case(cfg):
         elif not of2.warned:
             v2 = cotangent(cfg, tuple(xref.shape), xref.dtype, g)
             xref2 = pb["ref"]()
+            ferr2 = (of2.value.detach() - xref2.detach()).abs().max().item()
+            if not ferr2 <= 1e-6 * max(1.0, xref2.detach().abs().max().item()):
+                viol.append(V("reuse-forward-mismatch", {"max_abs_diff": ferr2,
+                                                         "note": "second solve with the same operator after an in-place "
+                                                                 "update of its leaf"}, stage="reuse"))
             lr2 = contraction(xref2, v2)
             l2 = contraction(of2.value, v2)
             if l2.requires_grad:
